@@ -68,6 +68,7 @@ NEEDS = {
  'C16-c': ('C16', ['C08'], 'TexCmd.__str__ puts a blank between an argument-less `\\item` and a body that starts with a letter (str.isalpha): `\\item中文` gains a blank on save 1 that is part of the text on load 2'),
  'C17-c': ('C17', ['C16'], 'TexGroup.parse is memoised (lru_cache): bare arguments of fixed-signature commands (`\\section Intro`) are one shared mutable object across all trees of the process'),
  'C18-c': ('C18', ['C14'], 'extend(other TexArgs) reads other.all: wrong order after insert(0, ..) / shared objects, whitespace copied'),
+ 'C18-d': ('C18', [], 'the reverse of repair F20: extend(args) iterates over the list it appends to, so extend by the list itself never terminates'),
  'C19-c': ('C19', ['C08'], 'categorize merges a high+low surrogate pair into the astral character it encodes: one token fewer than characters, foreign code point in the output'),
  'C20-c': ('C20', [], 'Buffer.__next__ fetches the gap after a forward() jump with one list comprehension: items are lost when the iterator ends inside it'),
 }
